@@ -43,6 +43,9 @@ pub struct AF<'a> {
     pub zero_at: Option<u64>,
     /// stamp of the matching RefGone (handle really dropped)
     pub gone_at: Option<u64>,
+    /// like `gone_at`, but for handles proper (a parked send future keeps the mailbox open, yet weak handles,
+    /// timers and the context cannot be upgraded through it)
+    pub arc_gone_at: Option<u64>,
     pub is_child: bool,
     pub incs: Vec<Inc>,
     pub task_end: Option<(u64, u64, &'static str)>,
@@ -97,6 +100,7 @@ pub fn facts<'a>(cx: &'a Cx) -> BTreeMap<u32, AF<'a>> {
             refs: vec![],
             zero_at: None,
             gone_at: None,
+            arc_gone_at: None,
             is_child: false,
             incs: vec![],
             task_end: a.end,
@@ -225,11 +229,18 @@ pub fn facts<'a>(cx: &'a Cx) -> BTreeMap<u32, AF<'a>> {
         }
     }
     let mut counts: BTreeMap<u32, i64> = BTreeMap::new();
+    let mut arc_counts: BTreeMap<u32, i64> = BTreeMap::new();
+    let mut arc_last: BTreeMap<u32, (u64, i64)> = BTreeMap::new();
     for e in ix.ev {
         match &e.k {
-            K::Ref { tag, delta, c, .. } => {
+            K::Ref { tag, delta, c, hk } => {
                 if let Some(task) = by_tag.get(tag) {
                     if let Some(af) = out.get_mut(task) {
+                        if *hk != Hk::Fut {
+                            let n = arc_counts.entry(*tag).or_insert(0i64);
+                            *n += *delta as i64;
+                            arc_last.insert(*tag, (e.stamp, *n));
+                        }
                         if *c >= 1000 {
                             af.is_child = true;
                         }
@@ -245,6 +256,12 @@ pub fn facts<'a>(cx: &'a Cx) -> BTreeMap<u32, AF<'a>> {
         }
     }
     for af in out.values_mut() {
+        if let Some((s, 0)) = arc_last.get(&af.tag).copied() {
+            af.arc_gone_at = ix.ev[(s as usize).min(ix.ev.len())..]
+                .iter()
+                .find(|e| matches!(&e.k, K::RefGone { tag, hk, .. } if *tag == af.tag && *hk != Hk::Fut))
+                .map(|e| e.stamp);
+        }
         if let Some((s, 0)) = af.refs.last().copied() {
             af.zero_at = Some(s);
             // matching RefGone: first RefGone of this tag after s
